@@ -32,4 +32,18 @@ PROPS = {
             "sync.Pool hands an object to one goroutine at a time",
         ],
     ),
+    "C10": dict(
+        families=[dict(name="own")],
+        level_text="Theorems C10_invariant, C10_exact, C10_find_dir_owner, C10_order_independent, C10_owner_unique, "
+                   "C10_reload, C10_intra_stage(+_complete) over the model of FindDirArtifactOwnerForPath / Validate / "
+                   "AddStage / RemoveStage / index reload: every reachable index has pairwise non-overlapping outputs, "
+                   "a stage is rejected exactly when an overlap exists, acceptance is permutation-invariant, the sorted "
+                   "index reloads. Tied to the code by running the exported AddStage/Validate/ToFile/FromFile on all "
+                   "ordered pairs (quick) / triples (thorough) of stages over a shared-prefix path universe and "
+                   "comparing with the model and a reference overlap relation inside Coq.",
+        level_note="Artifact paths are Clean relative paths without '..' (what stage.FromFile produces and Validate "
+                   "admits); is-dir is ignored by ownership as in the code. Trusted: Coq kernel, the Go harness.",
+        assumptions=["artifact paths are Clean, relative, without '..' components (good_art)",
+                     "stage files are loaded by the real stage.FromFile; YAML is not modelled here (C17)"],
+    ),
 }
